@@ -28,6 +28,10 @@ lookback at + above + below the strike, American binary at + below the barrier, 
 price moves with the volatility as it does at the money, so that the batch has ONE direction for bisect's `.all()` test): fixed corpus for every seed and
 random members, in the vector / reused-tensor round trips and in the resolution class (reachable and unreachable precisions, float32 / float64);
 find_implied_volatility(max_iter) on module prices with an at-the-money element.  Same element-wise predicates.
+Inputs in layouts with SINGLETON dimensions -- (N, 1) columns, (N, T, 1), (1, N), 0-dim, (1, 1) -- and broadcastable mixtures (state / coefficients in a column, a
+row or 0-dim, prices / targets in the full shape): bisect on the dyadic families (op "bisect" on the row-major elements + root predicate), every module kind's
+implied_volatility and find_implied_volatility with user pricers; predicates: result shape = broadcast shape of the inputs, element-wise round trip (keys
+"...:singleton-dims[:shape|:error]").  Every (kind, layout) pair runs for every seed.
 """
 import math
 from fractions import Fraction as F
@@ -1378,4 +1382,6 @@ def check(ctx):
              "RuntimeError or really within precision (oracle: float64 module, crossing certified by a margin, spacing of the floats near sigma); "
              "find_implied_volatility with the caller's max_iter in {0..1000} on user pricers and module prices; batches with elements exactly at the money next to "
              "elements off the money for every module kind (European binary: at + above the strike, calls and puts), fixed corpus + random; "
+             "inputs with singleton dimensions ((N,1), (N,T,1), (1,N), 0-dim, (1,1)) and broadcastable mixtures for bisect (model op + predicate), every module "
+             "kind's implied_volatility and find_implied_volatility: result shape = broadcast shape, element-wise round trip; "
              "non-trivial = valid bracket; distinct = sha1 of canonical case")
